@@ -1,0 +1,408 @@
+//! Verification hooks (cargo feature `verif`). Off by default; not part of the
+//! public API and never enabled in production builds.
+//!
+//! * H1: a simulated monotonic clock (`Instant`) read by the reset-expiry logic.
+//! * H2: pass-through `Mutex` / `AtomicUsize` / `AtomicWaker` shims that call a
+//!   thread-local yield hook before every un-nested lock acquisition and every
+//!   atomic operation, and record lock-discipline problems.
+//! * H3: a thread-local ordered event log (`RawFrameIn`, `FrameOut`) and the
+//!   read-only statistics snapshot types.
+//! * H4: re-exports of private components for component-level pipes.
+#![allow(missing_docs, missing_debug_implementations)]
+
+use std::cell::{Cell, RefCell};
+use std::ops::{Deref, DerefMut};
+use std::sync::atomic::Ordering;
+use std::sync::{LockResult, PoisonError, TryLockError, TryLockResult};
+use std::task::Waker;
+use std::time::Duration;
+
+// ---- H4: re-exports ----
+pub use crate::codec::{Codec, SendError, UserError};
+
+pub mod frame {
+    pub use crate::frame::*;
+}
+
+pub mod hpack {
+    pub use crate::hpack::huffman::{decode as huffman_decode, encode as huffman_encode};
+    pub use crate::hpack::*;
+}
+
+thread_local! {
+    static NOW_NS: Cell<u64> = const { Cell::new(0) };
+    static HELD: RefCell<Vec<(usize, &'static str)>> = const { RefCell::new(Vec::new()) };
+    static IN_HOOK: Cell<bool> = const { Cell::new(false) };
+    static HOOK: RefCell<Option<Box<dyn FnMut(Site)>>> = const { RefCell::new(None) };
+    static EVENTS_ON: Cell<bool> = const { Cell::new(false) };
+    static EVENTS: RefCell<Vec<Ev>> = const { RefCell::new(Vec::new()) };
+    static PROBLEMS: RefCell<Vec<String>> = const { RefCell::new(Vec::new()) };
+    static LOCKS: Cell<u64> = const { Cell::new(0) };
+}
+
+// ---- H1: clock ----
+
+pub fn set_now_ns(ns: u64) {
+    NOW_NS.with(|c| c.set(ns));
+}
+
+pub fn now_ns() -> u64 {
+    NOW_NS.with(|c| c.get())
+}
+
+#[derive(Debug, Clone, Copy, PartialEq, Eq, PartialOrd, Ord)]
+pub struct Instant(u64);
+
+impl Instant {
+    pub fn now() -> Instant {
+        Instant(NOW_NS.with(|c| c.get()))
+    }
+
+    pub fn saturating_duration_since(&self, earlier: Instant) -> Duration {
+        Duration::from_nanos(self.0.saturating_sub(earlier.0))
+    }
+}
+
+// ---- H3: event log ----
+
+#[derive(Debug, Clone, Copy, PartialEq, Eq)]
+pub enum Ev {
+    /// `FramedRead::poll_next` took one raw (length-delimited) frame off the
+    /// read buffer and is about to decode and process it.
+    RawFrameIn,
+    /// `FramedWrite::buffer` is about to encode one frame item.
+    FrameOut,
+}
+
+pub fn enable_events(on: bool) {
+    EVENTS_ON.with(|c| c.set(on));
+    EVENTS.with(|c| c.borrow_mut().clear());
+}
+
+#[inline]
+pub fn event(ev: Ev) {
+    if EVENTS_ON.with(|c| c.get()) {
+        EVENTS.with(|c| c.borrow_mut().push(ev));
+    }
+}
+
+pub fn take_events(into: &mut Vec<Ev>) {
+    EVENTS.with(|c| into.append(&mut c.borrow_mut()));
+}
+
+pub fn take_problems() -> Vec<String> {
+    PROBLEMS.with(|c| std::mem::take(&mut *c.borrow_mut()))
+}
+
+fn problem(msg: String) {
+    PROBLEMS.with(|c| c.borrow_mut().push(msg));
+}
+
+/// Number of h2 lock acquisitions on this thread (a deterministic work counter).
+pub fn lock_count() -> u64 {
+    LOCKS.with(|c| c.get())
+}
+
+// ---- H2: yield points ----
+
+#[derive(Debug, Clone, Copy, PartialEq, Eq)]
+pub enum Site {
+    Lock,
+    AtomicLoad,
+    AtomicStore,
+    AtomicCas,
+    WakerRegister,
+    WakerWake,
+}
+
+pub fn set_hook(h: Option<Box<dyn FnMut(Site)>>) {
+    HOOK.with(|c| *c.borrow_mut() = h);
+}
+
+pub fn locks_held() -> usize {
+    HELD.with(|c| c.borrow().len())
+}
+
+/// Forget the held-lock bookkeeping (used after a caught panic unwound guards
+/// normally this is already balanced; this is a belt-and-braces reset between runs).
+pub fn reset_thread_state() {
+    HELD.with(|c| c.borrow_mut().clear());
+    IN_HOOK.with(|c| c.set(false));
+    HOOK.with(|c| *c.borrow_mut() = None);
+    EVENTS.with(|c| c.borrow_mut().clear());
+    PROBLEMS.with(|c| c.borrow_mut().clear());
+}
+
+fn yield_point(site: Site) {
+    if locks_held() != 0 || IN_HOOK.with(|c| c.get()) {
+        return;
+    }
+    let h = HOOK.with(|c| c.borrow_mut().take());
+    if let Some(mut h) = h {
+        IN_HOOK.with(|c| c.set(true));
+        h(site);
+        IN_HOOK.with(|c| c.set(false));
+        HOOK.with(|c| {
+            let mut s = c.borrow_mut();
+            if s.is_none() {
+                *s = Some(h);
+            }
+        });
+    }
+}
+
+pub struct Mutex<T>(std::sync::Mutex<T>);
+
+pub struct MutexGuard<'a, T> {
+    g: std::sync::MutexGuard<'a, T>,
+    addr: usize,
+}
+
+fn is_buffer_lock(name: &str) -> bool {
+    name.contains("Buffer<")
+}
+
+impl<T> Mutex<T> {
+    pub fn new(t: T) -> Self {
+        Mutex(std::sync::Mutex::new(t))
+    }
+
+    fn addr(&self) -> usize {
+        self as *const _ as usize
+    }
+
+    fn pre_acquire(&self) {
+        let addr = self.addr();
+        let name = std::any::type_name::<T>();
+        HELD.with(|c| {
+            let held = c.borrow();
+            if held.iter().any(|(a, _)| *a == addr) {
+                drop(held);
+                problem(format!("re-entrant lock of {}", name));
+                // A re-entrant std lock would deadlock or panic; make it a panic.
+                panic!("verif: re-entrant lock of {}", name);
+            }
+            if !is_buffer_lock(name) && held.iter().any(|(_, n)| is_buffer_lock(n)) {
+                drop(held);
+                problem(format!(
+                    "lock order inversion: acquiring {} while holding send buffer",
+                    name
+                ));
+            }
+        });
+    }
+
+    fn acquired(&self) {
+        LOCKS.with(|c| c.set(c.get() + 1));
+        HELD.with(|c| {
+            c.borrow_mut()
+                .push((self.addr(), std::any::type_name::<T>()))
+        });
+    }
+
+    pub fn lock(&self) -> LockResult<MutexGuard<'_, T>> {
+        yield_point(Site::Lock);
+        self.pre_acquire();
+        let addr = self.addr();
+        match self.0.lock() {
+            Ok(g) => {
+                self.acquired();
+                Ok(MutexGuard { g, addr })
+            }
+            Err(p) => {
+                problem(format!("poisoned lock {}", std::any::type_name::<T>()));
+                self.acquired();
+                Err(PoisonError::new(MutexGuard {
+                    g: p.into_inner(),
+                    addr,
+                }))
+            }
+        }
+    }
+
+    pub fn try_lock(&self) -> TryLockResult<MutexGuard<'_, T>> {
+        let addr = self.addr();
+        match self.0.try_lock() {
+            Ok(g) => {
+                self.acquired();
+                Ok(MutexGuard { g, addr })
+            }
+            Err(TryLockError::Poisoned(p)) => {
+                self.acquired();
+                Err(TryLockError::Poisoned(PoisonError::new(MutexGuard {
+                    g: p.into_inner(),
+                    addr,
+                })))
+            }
+            Err(TryLockError::WouldBlock) => Err(TryLockError::WouldBlock),
+        }
+    }
+}
+
+impl<T> Drop for MutexGuard<'_, T> {
+    fn drop(&mut self) {
+        let addr = self.addr;
+        HELD.with(|c| {
+            let mut held = c.borrow_mut();
+            if let Some(pos) = held.iter().rposition(|(a, _)| *a == addr) {
+                held.remove(pos);
+            }
+        });
+    }
+}
+
+impl<T> Deref for MutexGuard<'_, T> {
+    type Target = T;
+    fn deref(&self) -> &T {
+        &self.g
+    }
+}
+
+impl<T> DerefMut for MutexGuard<'_, T> {
+    fn deref_mut(&mut self) -> &mut T {
+        &mut self.g
+    }
+}
+
+impl<T: std::fmt::Debug> std::fmt::Debug for Mutex<T> {
+    fn fmt(&self, f: &mut std::fmt::Formatter<'_>) -> std::fmt::Result {
+        self.0.fmt(f)
+    }
+}
+
+#[derive(Debug)]
+pub struct AtomicUsize(std::sync::atomic::AtomicUsize);
+
+impl AtomicUsize {
+    pub fn new(v: usize) -> Self {
+        AtomicUsize(std::sync::atomic::AtomicUsize::new(v))
+    }
+
+    pub fn load(&self, o: Ordering) -> usize {
+        yield_point(Site::AtomicLoad);
+        self.0.load(o)
+    }
+
+    pub fn store(&self, v: usize, o: Ordering) {
+        yield_point(Site::AtomicStore);
+        self.0.store(v, o)
+    }
+
+    pub fn compare_exchange(
+        &self,
+        c: usize,
+        n: usize,
+        s: Ordering,
+        f: Ordering,
+    ) -> Result<usize, usize> {
+        yield_point(Site::AtomicCas);
+        self.0.compare_exchange(c, n, s, f)
+    }
+}
+
+#[derive(Debug)]
+pub struct AtomicWaker(atomic_waker::AtomicWaker);
+
+impl AtomicWaker {
+    pub fn new() -> Self {
+        AtomicWaker(atomic_waker::AtomicWaker::new())
+    }
+
+    pub fn register(&self, w: &Waker) {
+        yield_point(Site::WakerRegister);
+        self.0.register(w)
+    }
+
+    pub fn wake(&self) {
+        yield_point(Site::WakerWake);
+        self.0.wake()
+    }
+}
+
+impl<T> Mutex<T> {
+    /// Lock without a yield point and without lock-discipline bookkeeping
+    /// (used by the statistics snapshot only).
+    pub fn lock_quiet(&self) -> std::sync::MutexGuard<'_, T> {
+        match self.0.lock() {
+            Ok(g) => g,
+            Err(p) => p.into_inner(),
+        }
+    }
+}
+
+// ---- H3: statistics snapshot ----
+
+#[derive(Debug, Clone, Default, PartialEq, Eq)]
+pub struct StreamStat {
+    pub id: u32,
+    /// 0 idle, 1 reserved-local, 2 reserved-remote, 3 open, 4 half-closed-local,
+    /// 5 half-closed-remote, 6 closed
+    pub state: u8,
+    pub ref_count: usize,
+    pub is_counted: bool,
+    pub is_pending_send: bool,
+    pub is_pending_send_capacity: bool,
+    pub is_pending_open: bool,
+    pub is_pending_push: bool,
+    pub is_pending_accept: bool,
+    pub is_pending_window_update: bool,
+    pub is_pending_reset_expiry: bool,
+    pub is_recv: bool,
+    pub send_window: i32,
+    pub send_available: i32,
+    pub recv_window: i32,
+    pub recv_available: i32,
+    pub requested_send_capacity: u32,
+    pub buffered_send_data: usize,
+    pub in_flight_recv_data: u32,
+    pub has_pending_send_frames: bool,
+    pub has_pending_recv_events: bool,
+}
+
+#[derive(Debug, Clone, Default, PartialEq, Eq)]
+pub struct VerifStats {
+    pub store_slab: usize,
+    pub store_ids: usize,
+    pub recv_buffer_slots: usize,
+    pub recv_buffer_data_bytes: usize,
+    pub send_buffer_slots: usize,
+    pub refs: usize,
+    pub num_send_streams: usize,
+    pub num_recv_streams: usize,
+    pub max_send_streams: usize,
+    pub max_recv_streams: usize,
+    pub num_local_reset_streams: usize,
+    pub num_remote_reset_streams: usize,
+    pub num_local_error_reset_streams: usize,
+    pub conn_recv_window: i32,
+    pub conn_recv_available: i32,
+    pub conn_recv_in_flight: u32,
+    pub conn_send_window: i32,
+    pub conn_send_available: i32,
+    pub has_conn_error: bool,
+    pub has_in_flight_data_frame: bool,
+    pub streams: Vec<StreamStat>,
+}
+
+#[derive(Debug, Clone, Copy, Default, PartialEq, Eq)]
+pub struct CodecStats {
+    pub read_buffer_len: usize,
+    pub partial_header_len: usize,
+    pub write_buffer_len: usize,
+    pub write_has_next: bool,
+    pub hpack_decoder_size: usize,
+    pub hpack_decoder_max: usize,
+    pub hpack_encoder_size: usize,
+    pub hpack_encoder_max: usize,
+}
+
+/// A cheap, cloneable way to take a `VerifStats` snapshot at any moment without
+/// touching the library's own reference counting.
+#[derive(Clone)]
+pub struct StatsHandle(pub(crate) std::sync::Arc<dyn Fn() -> VerifStats + Send + Sync>);
+
+impl StatsHandle {
+    pub fn snapshot(&self) -> VerifStats {
+        (self.0)()
+    }
+}
